@@ -96,12 +96,25 @@ ArpMism(e) ==
                      ELSE (IF e.f # <<b[7] * 256 + b[8]>> \o Sub(b, 8, 20) THEN {"arp.view_fields"} ELSE {}) \cup (IF e.back # 1 THEN {"arp.view_back_conversion"} ELSE {}))
   ELSE (IF e.view \notin errs THEN {"arp.view_verdict:" \o e.view} ELSE {})
 
+\* the code tables behind the typed messages are the tables of Ctl!Icmp4Kind / Icmp6Kind
+CodesOf(K(_, _), t, k) == {c \in 0..255 : K(t, c) = k}
+AsSet(q) == {q[i] : i \in 1..Len(q)}
+CodesMism(e) ==
+  (IF AsSet(e.v4_dest) # CodesOf(Icmp4Kind, 3, "DestinationUnreachable") THEN {"codes.icmpv4.dest_unreachable"} ELSE {})
+  \cup (IF AsSet(e.v4_redirect) # CodesOf(Icmp4Kind, 5, "Redirect") THEN {"codes.icmpv4.redirect"} ELSE {})
+  \cup (IF AsSet(e.v4_time) # CodesOf(Icmp4Kind, 11, "TimeExceeded") THEN {"codes.icmpv4.time_exceeded"} ELSE {})
+  \cup (IF AsSet(e.v4_param) # CodesOf(Icmp4Kind, 12, "ParameterProblem") THEN {"codes.icmpv4.parameter_problem"} ELSE {})
+  \cup (IF AsSet(e.v6_dest) # CodesOf(Icmp6Kind, 1, "DestinationUnreachable") THEN {"codes.icmpv6.dest_unreachable"} ELSE {})
+  \cup (IF AsSet(e.v6_time) # CodesOf(Icmp6Kind, 3, "TimeExceeded") THEN {"codes.icmpv6.time_exceeded"} ELSE {})
+  \cup (IF AsSet(e.v6_param) # CodesOf(Icmp6Kind, 4, "ParameterProblem") THEN {"codes.icmpv6.parameter_problem"} ELSE {})
+  \cup (IF e.round # 1 THEN {"codes.code_u8_roundtrip"} ELSE {})
+
 VARIABLES l, bad
 TraceInit == l = 1 /\ bad = {}
 TraceNext == /\ l <= Len(Rec)
              /\ LET e == Rec[l]
                     ms == CASE e.ev = "icmp4" -> Icmp4Mism(e) [] e.ev = "icmp6" -> Icmp6Mism(e) [] e.ev = "ndp" -> NdpMism(e) [] e.ev = "igmp" -> IgmpMism(e)
-                            [] e.ev = "grouprec" -> GroupRecMism(e) [] e.ev = "arp" -> ArpMism(e) [] OTHER -> {"panic:" \o e.kind}
+                            [] e.ev = "grouprec" -> GroupRecMism(e) [] e.ev = "arp" -> ArpMism(e) [] e.ev = "codes" -> CodesMism(e) [] OTHER -> {"panic:" \o e.kind}
                 IN bad' = bad \cup {<<e.id, t>> : t \in ms}
              /\ l' = l + 1
 TraceSpec == TraceInit /\ [][TraceNext]_<<l, bad>>
